@@ -8,12 +8,62 @@ import (
 	"strings"
 )
 
+// evalCall evaluates a call; calls made directly by the verified function update the ghost call history
+// and are checked against the contract's call-site assertions.
+func (e *Exec) evalCall(st *State, call *ast.CallExpr) []Term {
+	name := ""
+	switch f := call.Fun.(type) {
+	case *ast.Ident:
+		name = f.Name
+	case *ast.SelectorExpr:
+		name = f.Sel.Name
+	}
+	top := len(e.frames) == 1 && e.spec == 0 && e.calledObj != nil && name != ""
+	if top {
+		e.pendingAssert = name
+	}
+	res := e.evalCallInner(st, call)
+	if top && !st.Dead() {
+		if o := e.calledObj[name]; o != nil {
+			st.Vars[o] = True
+			for i, ro := range e.lastRetObj[name] {
+				if i < len(res) && res[i].Sort == e.S.SortOf(ro.Type()) {
+					st.Vars[ro] = res[i]
+				}
+			}
+		}
+	}
+	return res
+}
+
+// callSiteAsserts emits the obligations `call <name> assert[...]` for a call whose receiver and arguments
+// have just been evaluated.
+func (e *Exec) callSiteAsserts(st *State, call *ast.CallExpr, name string, recv Term, args []Term) {
+	if len(e.frames) != 1 || e.spec > 0 || e.Fn.C == nil || e.pendingAssert != name {
+		return
+	}
+	e.pendingAssert = ""
+	e.fr().callSeen["@"+name]++
+	ord := e.fr().callSeen["@"+name]
+	for _, ca := range e.Fn.C.Calls {
+		if ca.Callee != name || (ca.Ordinal != 0 && ca.Ordinal != ord) {
+			continue
+		}
+		e.callAsserted[ca] = true
+		savedA, savedR := e.callArgs, e.callRecv
+		e.callArgs, e.callRecv = args, recv
+		t := e.evalSpec(st, ca.Clause)
+		e.callArgs, e.callRecv = savedA, savedR
+		e.Ctx.AddObligation(e.Fn.FullName(), "assert", fmt.Sprintf("%s/assert/%s", e.fnName(), ca.Clause.Label), st.PC, t, e.pos(call.Pos()))
+	}
+}
+
 const (
 	maxInlineDepth = 8
 	maxInlineStmts = 60
 )
 
-func (e *Exec) evalCall(st *State, call *ast.CallExpr) []Term {
+func (e *Exec) evalCallInner(st *State, call *ast.CallExpr) []Term {
 	fun := call.Fun
 	for {
 		if p, ok := fun.(*ast.ParenExpr); ok {
@@ -148,7 +198,7 @@ func (e *Exec) havocKeys(st *State, keys map[string]bool) {
 		st.HavocAll = true
 	} else {
 		for k := range keys {
-			if _, ok := e.keySort[k]; ok {
+			if e.ensureKeySort(k) {
 				ks = append(ks, k)
 			} else {
 				if st.Unknown == nil {
@@ -163,6 +213,7 @@ func (e *Exec) havocKeys(st *State, keys map[string]bool) {
 		st.Heap[k] = e.Ctx.Fresh("hv", e.keySort[k])
 		e.touched[k] = true
 	}
+	e.havocMemo(st)
 	na := e.Ctx.Fresh("alloc", SInt)
 	e.Ctx.Assume(st.PC, Ge(na, st.Alloc))
 	st.Alloc = na
@@ -473,10 +524,16 @@ func (e *Exec) receiverValue(st *State, recvExpr ast.Expr, fn *types.Func, sel *
 		}
 		loc := e.lvalOf(st, recvExpr)
 		v := loc.get(st)
-		ref := e.newCell(st, xt, v)
+		var ref Term
+		if structOf(xt) != nil && !isPointer(xt) {
+			ref = e.allocRef(st, "cell")
+			e.storeStructRaw(st, ref, xt, v)
+		} else {
+			ref = e.newCell(st, xt, v)
+		}
 		back := func(s *State) {
 			if structOf(xt) != nil {
-				loc.set(s, e.Ctx.Define("cpout", e.loadStruct(s, ref, xt)))
+				loc.set(s, e.Ctx.Define("cpout", e.keepMemo(xt, e.loadStruct(s, ref, xt), v)))
 			} else {
 				loc.set(s, Select(e.heapGet(s, e.ptrKey(xt)), ref))
 			}
@@ -512,7 +569,7 @@ func (e *Exec) callFunc(st *State, call *ast.CallExpr, fn *types.Func, recvExpr 
 		if pc.GhostFields[fn.Name()] {
 			ref := e.eval(st, call.Args[0])
 			sig := fn.Type().(*types.Signature)
-			k := e.ghostKey(pkgPathOf(fn), strings.TrimPrefix(fn.Name(), "g_"), sig.Results().At(0).Type())
+			k := e.ghostKey(pkgPathOf(fn), strings.TrimPrefix(fn.Name(), "G_"), sig.Results().At(0).Type())
 			v := Select(e.heapGet(st, k), ref)
 			return []Term{v}
 		}
@@ -534,6 +591,7 @@ func (e *Exec) callFunc(st *State, call *ast.CallExpr, fn *types.Func, recvExpr 
 	if st.Dead() {
 		return e.freshResultsNoAlloc(call)
 	}
+	e.callSiteAsserts(st, call, fn.Name(), recv, args)
 	var res []Term
 	if h := externs[name]; h != nil && e.P.Funcs[fn] == nil {
 		e.Assumed["extern contract: "+name] = true
